@@ -300,3 +300,61 @@ package server
 //@ ensures[wf] csWF(s)
 //@ assigns contents(s.cs), spawned
 //@ props C09 C11:lock
+
+// ---- BEGIN Get (C07), generated by /verif/tools/gen_get_contracts.py ----
+//@ ghostvar gotNI StrSet
+// validAFT: the table selectors Get supports.
+//@ pred validAFT(a spb.AFTType) = a == spb.AFTType_ALL || a == spb.AFTType_IPV4 || a == spb.AFTType_IPV6 || a == spb.AFTType_MPLS || a == spb.AFTType_NEXTHOP_GROUP || a == spb.AFTType_NEXTHOP
+// getMsgsOK: every message appended to msgCh so far is a single-entry response of a selected kind, tagged with a
+// known network instance, whose key is installed in that instance's table of that kind.
+//@ unit Server.doGet
+//@ requires s != nil && s.masterRIB != nil && ribReady(s.masterRIB) && ribKeysOK(s.masterRIB)
+//@ requires[wire-valid] req != nil ==> oneofOK(req.NetworkInstance)
+//@ ensures[done-once] len(sent(doneCh)) == old(len(sent(doneCh))) + 1
+//@ ensures[nil-req] req == nil ==> len(sent(errCh)) == old(len(sent(errCh))) + 1 && len(sent(msgCh)) == old(len(sent(msgCh))) && errCode(sent(errCh)[old(len(sent(errCh)))]) == codes.InvalidArgument
+//@ ensures[empty-name] (req != nil && istype(req.NetworkInstance, *spb.GetRequest_Name)) && req.GetName() == "" ==> len(sent(errCh)) == old(len(sent(errCh))) + 1 && len(sent(msgCh)) == old(len(sent(msgCh))) && errCode(sent(errCh)[old(len(sent(errCh)))]) == codes.InvalidArgument
+//@ ensures[unknown-instance] (req != nil && istype(req.NetworkInstance, *spb.GetRequest_Name)) && req.GetName() != "" && !(req.GetName() in dom(s.masterRIB.niRIB)) ==> len(sent(errCh)) >= old(len(sent(errCh))) + 1 && len(sent(msgCh)) == old(len(sent(msgCh)))
+//@ ensures[unsupported-table] req != nil && !validAFT(req.Aft) ==> len(sent(errCh)) >= old(len(sent(errCh))) + 1 && len(sent(msgCh)) == old(len(sent(msgCh)))
+//@ ensures[no-scope] req != nil && tagof(req.NetworkInstance) == 0 ==> len(sent(msgCh)) == old(len(sent(msgCh))) && (validAFT(req.Aft) ==> len(sent(errCh)) == old(len(sent(errCh))))
+//@ ensures[tagged] forall j in old(len(sent(msgCh)))..len(sent(msgCh)) :: msgBase(sent(msgCh)[j]) && sent(msgCh)[j].Entry[0].NetworkInstance in dom(s.masterRIB.niRIB)
+//@ ensures[some-kind] forall j in old(len(sent(msgCh)))..len(sent(msgCh)) :: istype(sent(msgCh)[j].Entry[0].Entry, *spb.AFTEntry_Ipv4) || istype(sent(msgCh)[j].Entry[0].Entry, *spb.AFTEntry_Ipv6) || istype(sent(msgCh)[j].Entry[0].Entry, *spb.AFTEntry_Mpls) || istype(sent(msgCh)[j].Entry[0].Entry, *spb.AFTEntry_NextHopGroup) || istype(sent(msgCh)[j].Entry[0].Entry, *spb.AFTEntry_NextHop)
+//@ ensures[kind-v4] forall j in old(len(sent(msgCh)))..len(sent(msgCh)) :: istype(sent(msgCh)[j].Entry[0].Entry, *spb.AFTEntry_Ipv4) ==> (req.Aft == spb.AFTType_ALL || req.Aft == spb.AFTType_IPV4) && msg_v4(sent(msgCh)[j], sent(msgCh)[j].Entry[0].NetworkInstance) && key_v4(sent(msgCh)[j]) in dom(s.masterRIB.niRIB[sent(msgCh)[j].Entry[0].NetworkInstance].r.Afts.Ipv4Entry)
+//@ ensures[kind-v6] forall j in old(len(sent(msgCh)))..len(sent(msgCh)) :: istype(sent(msgCh)[j].Entry[0].Entry, *spb.AFTEntry_Ipv6) ==> (req.Aft == spb.AFTType_ALL || req.Aft == spb.AFTType_IPV6) && msg_v6(sent(msgCh)[j], sent(msgCh)[j].Entry[0].NetworkInstance) && key_v6(sent(msgCh)[j]) in dom(s.masterRIB.niRIB[sent(msgCh)[j].Entry[0].NetworkInstance].r.Afts.Ipv6Entry)
+//@ ensures[kind-mpls] forall j in old(len(sent(msgCh)))..len(sent(msgCh)) :: istype(sent(msgCh)[j].Entry[0].Entry, *spb.AFTEntry_Mpls) ==> (req.Aft == spb.AFTType_ALL || req.Aft == spb.AFTType_MPLS) && msg_mpls(sent(msgCh)[j], sent(msgCh)[j].Entry[0].NetworkInstance) && key_mpls(sent(msgCh)[j]) in dom(s.masterRIB.niRIB[sent(msgCh)[j].Entry[0].NetworkInstance].r.Afts.LabelEntry)
+//@ ensures[kind-nhg] forall j in old(len(sent(msgCh)))..len(sent(msgCh)) :: istype(sent(msgCh)[j].Entry[0].Entry, *spb.AFTEntry_NextHopGroup) ==> (req.Aft == spb.AFTType_ALL || req.Aft == spb.AFTType_NEXTHOP_GROUP) && msg_nhg(sent(msgCh)[j], sent(msgCh)[j].Entry[0].NetworkInstance) && key_nhg(sent(msgCh)[j]) in dom(s.masterRIB.niRIB[sent(msgCh)[j].Entry[0].NetworkInstance].r.Afts.NextHopGroup)
+//@ ensures[kind-nh] forall j in old(len(sent(msgCh)))..len(sent(msgCh)) :: istype(sent(msgCh)[j].Entry[0].Entry, *spb.AFTEntry_NextHop) ==> (req.Aft == spb.AFTType_ALL || req.Aft == spb.AFTType_NEXTHOP) && msg_nh(sent(msgCh)[j], sent(msgCh)[j].Entry[0].NetworkInstance) && key_nh(sent(msgCh)[j]) in dom(s.masterRIB.niRIB[sent(msgCh)[j].Entry[0].NetworkInstance].r.Afts.NextHop)
+//@ ensures[named-only] (req != nil && istype(req.NetworkInstance, *spb.GetRequest_Name)) ==> forall j in old(len(sent(msgCh)))..len(sent(msgCh)) :: sent(msgCh)[j].Entry[0].NetworkInstance == req.GetName()
+//@ ensures[named-complete-v4] (req != nil && istype(req.NetworkInstance, *spb.GetRequest_Name)) && req.GetName() in dom(s.masterRIB.niRIB) && len(sent(errCh)) == old(len(sent(errCh))) && recvd(stopCh) == old(recvd(stopCh)) && (req.Aft == spb.AFTType_ALL || req.Aft == spb.AFTType_IPV4) ==> forall k in dom(s.masterRIB.niRIB[req.GetName()].r.Afts.Ipv4Entry) :: old(len(sent(msgCh))) <= getpos_v4[k] && getpos_v4[k] < len(sent(msgCh)) && msg_v4(sent(msgCh)[getpos_v4[k]], req.GetName()) && key_v4(sent(msgCh)[getpos_v4[k]]) == k
+//@ ensures[named-complete-v6] (req != nil && istype(req.NetworkInstance, *spb.GetRequest_Name)) && req.GetName() in dom(s.masterRIB.niRIB) && len(sent(errCh)) == old(len(sent(errCh))) && recvd(stopCh) == old(recvd(stopCh)) && (req.Aft == spb.AFTType_ALL || req.Aft == spb.AFTType_IPV6) ==> forall k in dom(s.masterRIB.niRIB[req.GetName()].r.Afts.Ipv6Entry) :: old(len(sent(msgCh))) <= getpos_v6[k] && getpos_v6[k] < len(sent(msgCh)) && msg_v6(sent(msgCh)[getpos_v6[k]], req.GetName()) && key_v6(sent(msgCh)[getpos_v6[k]]) == k
+//@ ensures[named-complete-mpls] (req != nil && istype(req.NetworkInstance, *spb.GetRequest_Name)) && req.GetName() in dom(s.masterRIB.niRIB) && len(sent(errCh)) == old(len(sent(errCh))) && recvd(stopCh) == old(recvd(stopCh)) && (req.Aft == spb.AFTType_ALL || req.Aft == spb.AFTType_MPLS) ==> forall k in dom(s.masterRIB.niRIB[req.GetName()].r.Afts.LabelEntry) :: old(len(sent(msgCh))) <= getpos_mpls[k] && getpos_mpls[k] < len(sent(msgCh)) && msg_mpls(sent(msgCh)[getpos_mpls[k]], req.GetName()) && key_mpls(sent(msgCh)[getpos_mpls[k]]) == k
+//@ ensures[named-complete-nhg] (req != nil && istype(req.NetworkInstance, *spb.GetRequest_Name)) && req.GetName() in dom(s.masterRIB.niRIB) && len(sent(errCh)) == old(len(sent(errCh))) && recvd(stopCh) == old(recvd(stopCh)) && (req.Aft == spb.AFTType_ALL || req.Aft == spb.AFTType_NEXTHOP_GROUP) ==> forall k in dom(s.masterRIB.niRIB[req.GetName()].r.Afts.NextHopGroup) :: old(len(sent(msgCh))) <= getpos_nhg[k] && getpos_nhg[k] < len(sent(msgCh)) && msg_nhg(sent(msgCh)[getpos_nhg[k]], req.GetName()) && key_nhg(sent(msgCh)[getpos_nhg[k]]) == k
+//@ ensures[named-complete-nh] (req != nil && istype(req.NetworkInstance, *spb.GetRequest_Name)) && req.GetName() in dom(s.masterRIB.niRIB) && len(sent(errCh)) == old(len(sent(errCh))) && recvd(stopCh) == old(recvd(stopCh)) && (req.Aft == spb.AFTType_ALL || req.Aft == spb.AFTType_NEXTHOP) ==> forall k in dom(s.masterRIB.niRIB[req.GetName()].r.Afts.NextHop) :: old(len(sent(msgCh))) <= getpos_nh[k] && getpos_nh[k] < len(sent(msgCh)) && msg_nh(sent(msgCh)[getpos_nh[k]], req.GetName()) && key_nh(sent(msgCh)[getpos_nh[k]]) == k
+//@ ensures[all-visited] (req != nil && istype(req.NetworkInstance, *spb.GetRequest_All)) && len(sent(errCh)) == old(len(sent(errCh))) ==> forall n in dom(s.masterRIB.niRIB) :: n in gotNI
+//@ ensures[appends] len(sent(msgCh)) >= old(len(sent(msgCh))) && (forall j in 0..old(len(sent(msgCh))) :: sent(msgCh)[j] == old(sent(msgCh)[j]))
+//@ ensures[rib-untouched] ribState == old(ribState)
+//@ at "netInst.GetRIB(" ghost gotNI = add(gotNI, ni)
+//@ loop 1 at "range netInstances" invariant len(sent(msgCh)) >= old(len(sent(msgCh))) && (forall j in 0..old(len(sent(msgCh))) :: sent(msgCh)[j] == old(sent(msgCh)[j])) && len(sent(doneCh)) == old(len(sent(doneCh)))
+//@ loop 1 invariant ribReady(s.masterRIB) && ribKeysOK(s.masterRIB) && req != nil
+//@ loop 1 invariant len(sent(errCh)) == old(len(sent(errCh))) + ite(validAFT(req.Aft), 0, 1)
+//@ loop 1 invariant (filter[spb.AFTType_IPV4] <==> (validAFT(req.Aft) && req.Aft == spb.AFTType_IPV4)) && (filter[spb.AFTType_IPV6] <==> (validAFT(req.Aft) && req.Aft == spb.AFTType_IPV6)) && (filter[spb.AFTType_MPLS] <==> (validAFT(req.Aft) && req.Aft == spb.AFTType_MPLS)) && (filter[spb.AFTType_NEXTHOP_GROUP] <==> (validAFT(req.Aft) && req.Aft == spb.AFTType_NEXTHOP_GROUP)) && (filter[spb.AFTType_NEXTHOP] <==> (validAFT(req.Aft) && req.Aft == spb.AFTType_NEXTHOP)) && (filter[spb.AFTType_ALL] <==> req.Aft == spb.AFTType_ALL)
+//@ loop 1 invariant forall j in old(len(sent(msgCh)))..len(sent(msgCh)) :: msgBase(sent(msgCh)[j]) && sent(msgCh)[j].Entry[0].NetworkInstance in dom(s.masterRIB.niRIB)
+//@ loop 1 invariant forall j in old(len(sent(msgCh)))..len(sent(msgCh)) :: istype(sent(msgCh)[j].Entry[0].Entry, *spb.AFTEntry_Ipv4) || istype(sent(msgCh)[j].Entry[0].Entry, *spb.AFTEntry_Ipv6) || istype(sent(msgCh)[j].Entry[0].Entry, *spb.AFTEntry_Mpls) || istype(sent(msgCh)[j].Entry[0].Entry, *spb.AFTEntry_NextHopGroup) || istype(sent(msgCh)[j].Entry[0].Entry, *spb.AFTEntry_NextHop)
+//@ loop 1 invariant forall j in old(len(sent(msgCh)))..len(sent(msgCh)) :: istype(sent(msgCh)[j].Entry[0].Entry, *spb.AFTEntry_Ipv4) ==> (req.Aft == spb.AFTType_ALL || req.Aft == spb.AFTType_IPV4) && msg_v4(sent(msgCh)[j], sent(msgCh)[j].Entry[0].NetworkInstance) && key_v4(sent(msgCh)[j]) in dom(s.masterRIB.niRIB[sent(msgCh)[j].Entry[0].NetworkInstance].r.Afts.Ipv4Entry)
+//@ loop 1 invariant forall j in old(len(sent(msgCh)))..len(sent(msgCh)) :: istype(sent(msgCh)[j].Entry[0].Entry, *spb.AFTEntry_Ipv6) ==> (req.Aft == spb.AFTType_ALL || req.Aft == spb.AFTType_IPV6) && msg_v6(sent(msgCh)[j], sent(msgCh)[j].Entry[0].NetworkInstance) && key_v6(sent(msgCh)[j]) in dom(s.masterRIB.niRIB[sent(msgCh)[j].Entry[0].NetworkInstance].r.Afts.Ipv6Entry)
+//@ loop 1 invariant forall j in old(len(sent(msgCh)))..len(sent(msgCh)) :: istype(sent(msgCh)[j].Entry[0].Entry, *spb.AFTEntry_Mpls) ==> (req.Aft == spb.AFTType_ALL || req.Aft == spb.AFTType_MPLS) && msg_mpls(sent(msgCh)[j], sent(msgCh)[j].Entry[0].NetworkInstance) && key_mpls(sent(msgCh)[j]) in dom(s.masterRIB.niRIB[sent(msgCh)[j].Entry[0].NetworkInstance].r.Afts.LabelEntry)
+//@ loop 1 invariant forall j in old(len(sent(msgCh)))..len(sent(msgCh)) :: istype(sent(msgCh)[j].Entry[0].Entry, *spb.AFTEntry_NextHopGroup) ==> (req.Aft == spb.AFTType_ALL || req.Aft == spb.AFTType_NEXTHOP_GROUP) && msg_nhg(sent(msgCh)[j], sent(msgCh)[j].Entry[0].NetworkInstance) && key_nhg(sent(msgCh)[j]) in dom(s.masterRIB.niRIB[sent(msgCh)[j].Entry[0].NetworkInstance].r.Afts.NextHopGroup)
+//@ loop 1 invariant forall j in old(len(sent(msgCh)))..len(sent(msgCh)) :: istype(sent(msgCh)[j].Entry[0].Entry, *spb.AFTEntry_NextHop) ==> (req.Aft == spb.AFTType_ALL || req.Aft == spb.AFTType_NEXTHOP) && msg_nh(sent(msgCh)[j], sent(msgCh)[j].Entry[0].NetworkInstance) && key_nh(sent(msgCh)[j]) in dom(s.masterRIB.niRIB[sent(msgCh)[j].Entry[0].NetworkInstance].r.Afts.NextHop)
+//@ loop 1 invariant (req != nil && istype(req.NetworkInstance, *spb.GetRequest_Name)) ==> forall j in old(len(sent(msgCh)))..len(sent(msgCh)) :: sent(msgCh)[j].Entry[0].NetworkInstance == req.GetName()
+//@ loop 1 invariant (req != nil && istype(req.NetworkInstance, *spb.GetRequest_Name)) ==> len(netInstances) == 1 && netInstances[0] == req.GetName()
+//@ loop 1 invariant (forall i in 0..loopi :: netInstances[i] in dom(s.masterRIB.niRIB)) && (loopi == 0 ==> len(sent(msgCh)) == old(len(sent(msgCh))) && recvd(stopCh) == old(recvd(stopCh)))
+//@ loop 1 invariant forall i in 0..loopi :: netInstances[i] in gotNI
+//@ loop 1 invariant (req != nil && istype(req.NetworkInstance, *spb.GetRequest_All)) ==> forall n in dom(s.masterRIB.niRIB) :: exists i in 0..len(netInstances) :: netInstances[i] == n
+//@ loop 1 invariant tagof(req.NetworkInstance) == 0 ==> len(netInstances) == 0
+//@ loop 1 invariant (req != nil && istype(req.NetworkInstance, *spb.GetRequest_Name)) && loopi == 1 && recvd(stopCh) == old(recvd(stopCh)) && (req.Aft == spb.AFTType_ALL || req.Aft == spb.AFTType_IPV4) ==> forall k in dom(s.masterRIB.niRIB[req.GetName()].r.Afts.Ipv4Entry) :: old(len(sent(msgCh))) <= getpos_v4[k] && getpos_v4[k] < len(sent(msgCh)) && msg_v4(sent(msgCh)[getpos_v4[k]], req.GetName()) && key_v4(sent(msgCh)[getpos_v4[k]]) == k
+//@ loop 1 invariant (req != nil && istype(req.NetworkInstance, *spb.GetRequest_Name)) && loopi == 1 && recvd(stopCh) == old(recvd(stopCh)) && (req.Aft == spb.AFTType_ALL || req.Aft == spb.AFTType_IPV6) ==> forall k in dom(s.masterRIB.niRIB[req.GetName()].r.Afts.Ipv6Entry) :: old(len(sent(msgCh))) <= getpos_v6[k] && getpos_v6[k] < len(sent(msgCh)) && msg_v6(sent(msgCh)[getpos_v6[k]], req.GetName()) && key_v6(sent(msgCh)[getpos_v6[k]]) == k
+//@ loop 1 invariant (req != nil && istype(req.NetworkInstance, *spb.GetRequest_Name)) && loopi == 1 && recvd(stopCh) == old(recvd(stopCh)) && (req.Aft == spb.AFTType_ALL || req.Aft == spb.AFTType_MPLS) ==> forall k in dom(s.masterRIB.niRIB[req.GetName()].r.Afts.LabelEntry) :: old(len(sent(msgCh))) <= getpos_mpls[k] && getpos_mpls[k] < len(sent(msgCh)) && msg_mpls(sent(msgCh)[getpos_mpls[k]], req.GetName()) && key_mpls(sent(msgCh)[getpos_mpls[k]]) == k
+//@ loop 1 invariant (req != nil && istype(req.NetworkInstance, *spb.GetRequest_Name)) && loopi == 1 && recvd(stopCh) == old(recvd(stopCh)) && (req.Aft == spb.AFTType_ALL || req.Aft == spb.AFTType_NEXTHOP_GROUP) ==> forall k in dom(s.masterRIB.niRIB[req.GetName()].r.Afts.NextHopGroup) :: old(len(sent(msgCh))) <= getpos_nhg[k] && getpos_nhg[k] < len(sent(msgCh)) && msg_nhg(sent(msgCh)[getpos_nhg[k]], req.GetName()) && key_nhg(sent(msgCh)[getpos_nhg[k]]) == k
+//@ loop 1 invariant (req != nil && istype(req.NetworkInstance, *spb.GetRequest_Name)) && loopi == 1 && recvd(stopCh) == old(recvd(stopCh)) && (req.Aft == spb.AFTType_ALL || req.Aft == spb.AFTType_NEXTHOP) ==> forall k in dom(s.masterRIB.niRIB[req.GetName()].r.Afts.NextHop) :: old(len(sent(msgCh))) <= getpos_nh[k] && getpos_nh[k] < len(sent(msgCh)) && msg_nh(sent(msgCh)[getpos_nh[k]], req.GetName()) && key_nh(sent(msgCh)[getpos_nh[k]]) == k
+//@ assigns sent(msgCh), sent(errCh), sent(doneCh), recvd(stopCh), gotNI, getpos_v4, getpos_v6, getpos_mpls, getpos_nhg, getpos_nh
+//@ props C07 C12:safety C11:lock
+// ---- END Get (C07) ----
